@@ -180,6 +180,31 @@ CLAIMED["C10"] = {
             "(tightness not preserved around headings / nested loose lists) are listed.",
     "design": "DESIGN.md §5 C10",
 }
+CLAIMED["C17"] = {
+    "text": "Coq theorems over an abstract directory tree with pathspec, glob and the order of paths as oracles (for every tree, matcher "
+            "and setting): the traversal returns exactly the files that are regular files reached through real directories only, none "
+            "of them excluded, and that pass the per-file tests (sound and complete against a declarative specification); nothing is "
+            "reached through a link; the listing order of directories at any depth is irrelevant; a glob selects among the traversal's "
+            "files; explicit files bypass exclusion unless force_exclude and never the size limit; the result is sorted, duplicate-free, "
+            "the union of what the arguments give, and equal for every permutation or repetition of the arguments (any total order). "
+            "Model tied by running it with pathspec's answers supplied against FileResolver on real trees; the implementation is compared "
+            "with an independent reference walk over random trees x the complete settings product x argument mixes, with shuffled "
+            "listing order and permuted arguments.",
+    "note": "pathspec, glob and the file system are used, not modelled. Three genuine defects (symlinked files listed, globs bypassing "
+            "the filters, slash rules of .flowmarkignore ignored for files) were repaired in /repo.",
+    "design": "DESIGN.md §5 C17",
+}
+CLAIMED["C18"] = {
+    "text": "The reference is git itself, so agreement is decided differentially: FileResolver(respect_gitignore) vs `git ls-files -co "
+            "--exclude-standard` in scratch repositories over random trees with .gitignore files at every level drawn from the pattern "
+            "language (basename, wildcard, ?, class, dir-only, anchored, multi-segment, **, negation, comments). Coq theorems about the "
+            "model of the chain handling: each file is asked about the path relative to its own directory and the deepest file with an "
+            "opinion decides; an ignored directory contributes no file; with respect_gitignore off the .gitignore files have no "
+            "influence at all. Model tied by correspondence with pathspec's check_file answers supplied.",
+    "note": "git 2.39.5 is the oracle and pathspec the matcher; neither is modelled. The basename-only / any-over-the-chain matching "
+            "(D-23) was repaired in /repo; D-59 (pathspec's reading of negated directory patterns) is a listed finding.",
+    "design": "DESIGN.md §5 C18",
+}
 PENDING_REASON = "check not built yet in this revision (work in progress; see DESIGN.md §7 staging)"
 
 def main():
